@@ -192,7 +192,8 @@ impl NotificationHandler for DidOpenTextDocument {
 impl NotificationHandler for DidChangeTextDocument {
     fn handle(cache: &mut Cache, params: Self::Params) -> Option<Notification> {
         let uri = params.text_document.uri;
-        let text = params.content_changes.into_iter().next().unwrap().text;
+        // full document sync: the last change event carries the latest text
+        let text = params.content_changes.into_iter().next_back()?.text;
         let diagnostics = {
             cache.invalidate(&uri);
             cache.analyze(uri.clone(), text);
